@@ -47,6 +47,16 @@ func project(body hcl.Body, schema *hcl.BodySchema) (string, bool) {
 	return fmt.Sprintf("attrs[%s] blocks[%s]", strings.Join(attrs, " "), strings.Join(bl, " ")), diags.HasErrors()
 }
 
+// sequence is the order-sensitive part of the projection: the block sequence across all types.
+func sequence(body hcl.Body, schema *hcl.BodySchema) string {
+	content, _ := body.Content(schema)
+	var bl []string
+	for _, b := range content.Blocks {
+		bl = append(bl, fmt.Sprintf("%s%q", b.Type, b.Labels))
+	}
+	return strings.Join(bl, " ")
+}
+
 func Handle(c *core.Check, st core.State) {
 	if tla.Str(st.Vars["phase"]) != "body" {
 		return
@@ -84,7 +94,8 @@ func Handle(c *core.Check, st core.State) {
 		return
 	}
 	nproj, nperr := project(nf.Body, schema)
-	for variant := 0; variant < 4; variant++ {
+	nseq := sequence(nf.Body, schema)
+	for variant := 0; variant < 5; variant++ {
 		js := dec.JSON(items, variant)
 		vec := map[string]any{"state": st.Raw, "case": desc, "json": js, "native": src}
 		c.Count("evaluations", 1)
@@ -112,6 +123,15 @@ func Handle(c *core.Check, st core.State) {
 		if nperr != jperr || (!nperr && nproj != jproj) {
 			c.Violation("content-differs/"+sn.K, fmt.Sprintf("%s: native content %s (errors=%v), JSON form %s content %s (errors=%v)", desc, nproj, nperr, js, jproj, jperr), vec)
 			return
+		}
+		// forms 0 and 4 keep every item in source order (one property per item), so the whole block
+		// sequence, across block types, must be the native one; the grouping forms can only keep
+		// the order within a type
+		if variant == 0 || variant == 4 {
+			if jseq := sequence(jf.Body, schema); !nperr && jseq != nseq {
+				c.Violation("block-sequence-differs/"+sn.K, fmt.Sprintf("%s: native block sequence [%s], JSON form %s gives [%s]", desc, nseq, js, jseq), vec)
+				return
+			}
 		}
 	}
 	if len(items) > 0 {
